@@ -23,6 +23,11 @@ def clone_lemma(recording):
         order = [f for f, _ in L.ex.defs.structs["State"]]
         cex = lambda m: {"lines": ["recording on", "compile 1 2 3", "next 3", "clone", "rnext 2", "stack", "swap", "rnext 2", "stack"],
                          "expect": [("no_panic",), ("stacks_equal", [0, 1])]}
+        # any other component: a snapshot taken in the middle of a word with a local, inside a counted loop, with a
+        # variable and a vector around; both copies are then run to the end and must end in the same state
+        gen = lambda m: {"lines": ["recording on", "eval 5 var v [ 1 2 ]", "compile : f 10 local x 3 0 do I x + loop ; f v", "next 12", "clone",
+                                   "run", "dump", "swap", "run", "dump"],
+                         "expect": [("no_panic",), ("results_same_kind", [2, 3]), ("dumps_equal", [0, 1])]}
         for o in outs:
             if o.kind != "return":
                 L.fail(o, "State::clone must not panic")
@@ -34,9 +39,9 @@ def clone_lemma(recording):
             for i, f in enumerate(order):
                 a = L.ex.step_get(None, S0, ("f", i, L.ex.defs.structs["State"][i][1])) if i not in S0.fields else S0.fields[i]
                 if i not in C.fields:
-                    L.require(o, False, "the snapshot has a `%s` component" % f, cex=cex if f == "reverse_log" else None)
+                    L.require(o, False, "the snapshot has a `%s` component" % f, cex=cex if f == "reverse_log" else gen)
                     continue
-                L.require(o, veq(L.ex, C.fields[i], a), "the snapshot's `%s` equals the original's" % f, cex=cex if f == "reverse_log" else None)
+                L.require(o, veq(L.ex, C.fields[i], a), "the snapshot's `%s` equals the original's" % f, cex=cex if f == "reverse_log" else gen)
             L.require(o, veq(L.ex, S0, pre.S), "cloning leaves the original unchanged")
     return body
 
